@@ -22,6 +22,32 @@ CHECKS = {
                   "excluded. Modelled, not verified: CPython, typeguard, enum lookup. No axioms.",
         technique="Rocq invariant proof over all histories + model-vs-code correspondence (vm_compute) + oracle scan",
         ref="§C02"),
+    "C03": dict(
+        text="C03_words: for every history (bounds set or re-set at any point, both distance modes, hooks, rejected "
+             "calls and C05 leak sites included) every bounded word of every emitted line -- F of motion/bare-F lines, "
+             "S of motion/bare-S/tool-start lines, T of tool changes, S/R of bed/hotend/chamber commands -- is the "
+             "dp-rounding of a value inside the range in force when the call started (induction over the history, "
+             "case analysis over all 36 call kinds). C03_target_*: the target of a move/rapid, bypass move and probe, "
+             "in builder coordinates, is inside the axes box, from every state. C03_rounded: hence within half a unit "
+             "of the last place of the range (from the proved rounding-error bound). C03_nan: no non-finite value "
+             "passes a bound. Correspondence + oracle on histories under random bound configurations with boundary "
+             "values, hooks and tracer paths.",
+        note=TB + "Hypotheses: parameter letters distinct and not G/M/T/X/Y/Z; halt() carries at most one of S/R; "
+                  "bounds are finite numbers. Float rounding of +,- not modelled. No axioms.",
+        technique="Rocq proof over all histories (36-way case analysis) + correspondence (vm_compute) + oracle",
+        ref="§C03"),
+    "C05": dict(
+        text="The full statement is false of the faithful model and of the code (C05_refuted_* witnesses, replayed on "
+             "the implementation, listed in known_findings.json). Proved instead, for every state and argument: "
+             "C05_atomic -- every call kind outside an explicit list of eleven is atomic (state identical, nothing "
+             "emitted, later behaviour identical); C05_frame_* -- for each of the eleven, exactly which fields may "
+             "differ and that nothing (or only the G90/G91 pair) is emitted, plus conditions under which they are "
+             "atomic. The check classifies every observed leak by site; listed sites print KNOWN-FINDING, any other "
+             "leak is a VIOLATION.",
+        note=TB + "Known findings: 13 leak sites (see known_findings.json), all rooted in commit-before-validate "
+                  "ordering in gcode_core/gcode_builder/gcode_state. No axioms.",
+        technique="Rocq proof of atomicity/frame per call kind + refutation witnesses + correspondence + snapshot oracle",
+        ref="§C05"),
     "C06": dict(
         text="C06_tool_off/power_off/coolant_off/emergency_halt: from EVERY model state (not only reachable ones, "
              "hence under every bounds table) the four shutdown calls return normally, emit exactly M5 / M9 / "
